@@ -356,7 +356,7 @@ prompt NAK / keep-alive, report) triggered at random datagram ordinals and an op
         },
     );
     ctx.section = "blackout+fault+cancel-sampled".into();
-    let n = ctx.tier.pick(30_000u64, 300_000);
+    let n = ctx.tier.pick(30_000u64, 1_000_000);
     ctx.drive_proptest(&part, strat, n, 200);
     // "chaos": the general scenario generator (both modes, all configurations, up to 4 faults) plus random user requests
     // (cancel, suspend followed by resume, prompts) and optional blackouts: whatever happens, nothing may spin or stay forever
@@ -367,7 +367,7 @@ prompt NAK / keep-alive, report) triggered at random datagram ordinals and an op
     )
         .prop_map(|(sc, cmds, blackout)| C03Case { sc: add_chaos(sc, &cmds, blackout) });
     ctx.section = "chaos-user-requests+faults".into();
-    let n = ctx.tier.pick(40_000u64, 500_000);
+    let n = ctx.tier.pick(40_000u64, 2_000_000);
     ctx.drive_proptest(&part, chaos, n, 200);
     ctx.section.clear();
     if ctx.tier == Tier::Thorough {
